@@ -5,8 +5,8 @@ import (
 	"go/types"
 	"math/big"
 	"regexp"
-	"sort"
 	"runtime"
+	"sort"
 	"strings"
 	"time"
 
